@@ -8,7 +8,7 @@ sid, wt, prop = sys.argv[1], sys.argv[2], sys.argv[3]
 checks = sys.argv[3:]
 ENV = dict(os.environ, GOFLAGS="", GOPROXY="off", GOSUMDB="off", GOTOOLCHAIN="local")
 def sh(cmd, cwd=wt, **kw):
-    return subprocess.run(cmd, shell=True, cwd=cwd, env=ENV, capture_output=True, text=True, **kw)
+    return subprocess.run(cmd, shell=True, cwd=cwd, env=ENV, capture_output=True, text=True, errors="replace", **kw)
 diff = os.path.join(wt, "MUTATION.diff")
 assert os.path.exists(diff), "no MUTATION.diff"
 demos = [p for p in glob.glob(wt + "/**/mutation_demo*", recursive=True)]
@@ -66,7 +66,7 @@ results = {}
 try:
     subprocess.run(["git","-C","/repo","apply",dst+"/patch.diff"],check=True)
     for cid in checks:
-        r = subprocess.run(["/verif/scripts/check.sh", cid, "quick"], capture_output=True, text=True)
+        r = subprocess.run(["/verif/scripts/check.sh", cid, "quick"], capture_output=True, text=True, errors="replace")
         out = r.stdout + r.stderr
         sigs = [l.strip()[:300] for l in out.splitlines() if l.startswith("  signature")]
         results[cid] = {"verdict": "CAUGHT" if r.returncode == 1 and "VIOLATION" in out else ("HARNESS-ERROR" if r.returncode == 3 else "MISSED"), "rc": r.returncode, "signatures": sigs[:4]}
